@@ -152,6 +152,11 @@ func asNumber(t iterator, o interface{}) float64 {
 		return typ
 	case string:
 		return stringToNumber(typ)
+	case bool:
+		if typ {
+			return 1
+		}
+		return 0
 	}
 	return math.NaN()
 }
